@@ -79,3 +79,105 @@ Proof.
     rewrite ?get_put; repeat split; try reflexivity;
     destruct (Nat.eqb_spec i i); try congruence; destruct (Nat.ltb i (length (sbs w))); reflexivity.
 Qed.
+
+(* ---------- C08: by-value structs round-trip field by field ---------- *)
+From RLBoxV Require Import Ptr_proofs.
+
+(* pointers in a value are null or point into the region (not at its first byte, which is the
+   guest's null) *)
+Fixpoint pwf (s : region) (p : pkind) (v : aval) {struct p} : Prop :=
+  match p, v with
+  | KPtr, VPtr x => x = 0 \/ (inr s x = true /\ x <> rbase s)
+  | KStruct fs, VStruct vs =>
+    (fix go (fs : list pkind) (vs : list aval) {struct fs} : Prop :=
+       match fs, vs with
+       | f :: ft, x :: xt => pwf s f x /\ go ft xt
+       | _, _ => True
+       end) fs vs
+  | _, _ => True
+  end.
+
+Lemma seq_all_ok l gs : seq_all l = Some (Ok gs) -> Forall2 (fun o g => o = Some (Ok g)) l gs.
+Proof.
+  revert gs. induction l as [|o tl IH]; intros gs H; cbn [seq_all] in H.
+  - inversion H. constructor.
+  - destruct o as [r|]; [|discriminate]. destruct (seq_all tl) as [rs|]; [|discriminate].
+    destruct r as [x| | |]; cbn [bind] in H; try discriminate.
+    destruct rs as [xs| | |]; cbn [bind] in H; try discriminate.
+    inversion H; subst. constructor; [reflexivity|apply IH; reflexivity].
+Qed.
+
+Lemma seq_all_intro l gs : Forall2 (fun o g => o = Some (Ok g)) l gs -> seq_all l = Some (Ok gs).
+Proof. induction 1 as [|o g tl gt Ho _ IH]; cbn [seq_all]; [reflexivity|]. rewrite Ho, IH. reflexivity. Qed.
+
+Section RoundTrip.
+Variable a : abi.
+Variable s : region.
+Hypothesis Ha : abi_ok a = true.
+Hypothesis Hs : region_ok s.
+
+(* the specification's conversion to the sandbox, when it succeeds, yields a well-typed guest
+   value whose conversion back is the original *)
+Lemma sv_roundtrip p : forall v g,
+  wt a true p v -> pwf s p v -> sv a s true p v = Some (Ok g) ->
+  wt a false p g /\ sv a s false p g = Some (Ok v).
+Proof.
+  induction p as [k| | | |fs IH] using pkind_ind'; intros v g Hw Hp H; destruct v as [x|x|vs]; cbn [sv] in H; try discriminate.
+  - destruct (sbx_equiv a k) as [sk|] eqn:He; [|discriminate].
+    destruct (in_range sk x) eqn:Hr; [|discriminate]. inversion H; subst g.
+    cbn [wt sv]. rewrite He. split; [exact Hr|]. cbn [wt] in Hw. rewrite Hw. reflexivity.
+  - inversion H; subst g. split; [exact I|reflexivity].
+  - inversion H; subst g. cbn [wt sv]. split; [exact I|]. cbn [pwf] in Hp. f_equal. f_equal. f_equal.
+    destruct (Z.eqb_spec x 0) as [->|Hn]; [reflexivity|].
+    destruct Hp as [Hp|[Hin Hne]]; [contradiction|].
+    pose proof (roundtrip_addr s x Hs Hin Hne) as RT.
+    unfold unsandbox, sandbox_ptr, impl_unsandbox, impl_sandbox in RT.
+    destruct (Z.eqb_spec x 0); [contradiction|]. exact RT.
+  - inversion H; subst g. split; [exact I|reflexivity].
+  - (* struct *)
+    match type of H with match ?G with _ => _ end = _ => destruct G as [l|] eqn:EG; [|discriminate] end.
+    destruct (seq_all l) as [[gs| | |]|] eqn:ES; cbn [res_map] in H; try discriminate.
+    inversion H; subst g. apply seq_all_ok in ES.
+    cbn [wt pwf] in Hw, Hp.
+    assert (K : (fix go (fs0 : list pkind) (vs0 : list aval) {struct fs0} : Prop :=
+                   match fs0, vs0 with f :: ft, x :: xt => wt a false f x /\ go ft xt | _, _ => True end) fs gs /\
+                (fix go (fs0 : list pkind) (vs0 : list aval) {struct fs0} : option (list (option (res aval))) :=
+                   match fs0, vs0 with
+                   | [], [] => Some []
+                   | f :: ft, x :: xt => match go ft xt with Some l0 => Some (sv a s false f x :: l0) | None => None end
+                   | _, _ => None end) fs gs = Some (map (fun v => Some (Ok v)) vs)).
+    { clear H. revert vs l gs Hw Hp EG ES. induction IH as [|f ft Hf _ IHl]; intros vs l gs Hw Hp EG ES.
+      - destruct vs; [|discriminate]. inversion EG; subst l. inversion ES; subst. split; [exact I|reflexivity].
+      - destruct vs as [|x xt]; [discriminate|].
+        match type of EG with match ?G with _ => _ end = _ => destruct G as [l'|] eqn:EG'; [|discriminate] end.
+        inversion EG; subst l. inversion ES as [|o g0 tl gt Ho Ht]; subst.
+        destruct Hw as [Hwx Hwt]. destruct Hp as [Hpx Hpt].
+        destruct (Hf x g0 Hwx Hpx Ho) as [W1 S1].
+        destruct (IHl xt l' gt Hwt Hpt EG' Ht) as [W2 S2].
+        split; [split; assumption|]. rewrite S2, S1. reflexivity. }
+    destruct K as [K1 K2]. cbn [wt sv]. split; [exact K1|]. rewrite K2.
+    rewrite (seq_all_intro (map (fun v => Some (Ok v)) vs) vs); [reflexivity|].
+    clear. induction vs; constructor; [reflexivity|assumption].
+Qed.
+
+(* field-wise: each field of the image is the conversion of the corresponding field of the source *)
+Lemma cv_struct_fieldwise dir fs vs gs :
+  cv a s dir (KStruct fs) (VStruct vs) = Some (Ok (VStruct gs)) ->
+  exists l, Forall2 (fun o g => o = Some (Ok g)) l gs /\ cv_list a s dir fs vs = Some l.
+Proof.
+  cbn [cv]. intros H.
+  match type of H with match ?G with _ => _ end = _ => destruct G as [l|] eqn:EG; [|discriminate] end.
+  destruct (seq_all l) as [[gs'| | |]|] eqn:ES; cbn [res_map] in H; try discriminate.
+  inversion H; subst gs'. exists l. split; [apply seq_all_ok; exact ES|].
+  clear H ES. revert vs l EG. induction fs as [|f ft IH]; intros vs l EG; destruct vs as [|x xt]; cbn [cv_list]; try discriminate; exact EG.
+Qed.
+End RoundTrip.
+
+Theorem struct_roundtrip a s p v g :
+  abi_ok a = true -> region_ok s -> wt a true p v -> pwf s p v ->
+  cv a s true p v = Some (Ok g) -> cv a s false p g = Some (Ok v).
+Proof.
+  intros Ha Hs Hw Hp H. rewrite (cv_sv a s Ha true p v Hw) in H.
+  destruct (sv_roundtrip a s Hs p v g Hw Hp H) as [W S].
+  rewrite (cv_sv a s Ha false p g W). exact S.
+Qed.
